@@ -100,6 +100,15 @@ Reconf.vos Reconf.vok Reconf.required_vos: Reconf.v
 ReconfFacts.vo ReconfFacts.glob ReconfFacts.v.beautified ReconfFacts.required_vo: ReconfFacts.v Reconf.vo
 ReconfFacts.vio: ReconfFacts.v Reconf.vio
 ReconfFacts.vos ReconfFacts.vok ReconfFacts.required_vos: ReconfFacts.v Reconf.vos
+Args.vo Args.glob Args.v.beautified Args.required_vo: Args.v Graph.vo Sched.vo Dataflow.vo
+Args.vio: Args.v Graph.vio Sched.vio Dataflow.vio
+Args.vos Args.vok Args.required_vos: Args.v Graph.vos Sched.vos Dataflow.vos
+ArgsCheck.vo ArgsCheck.glob ArgsCheck.v.beautified ArgsCheck.required_vo: ArgsCheck.v Graph.vo Sched.vo Dataflow.vo Terms.vo Args.vo
+ArgsCheck.vio: ArgsCheck.v Graph.vio Sched.vio Dataflow.vio Terms.vio Args.vio
+ArgsCheck.vos ArgsCheck.vok ArgsCheck.required_vos: ArgsCheck.v Graph.vos Sched.vos Dataflow.vos Terms.vos Args.vos
+ArgsFacts.vo ArgsFacts.glob ArgsFacts.v.beautified ArgsFacts.required_vo: ArgsFacts.v Graph.vo GraphFacts.vo Sched.vo SchedInv.vo Dataflow.vo DenPre.vo Args.vo
+ArgsFacts.vio: ArgsFacts.v Graph.vio GraphFacts.vio Sched.vio SchedInv.vio Dataflow.vio DenPre.vio Args.vio
+ArgsFacts.vos ArgsFacts.vok ArgsFacts.required_vos: ArgsFacts.v Graph.vos GraphFacts.vos Sched.vos SchedInv.vos Dataflow.vos DenPre.vos Args.vos
 Properties/C01.vo Properties/C01.glob Properties/C01.v.beautified Properties/C01.required_vo: Properties/C01.v Graph.vo Sched.vo SchedInv.vo Dataflow.vo DataflowFacts.vo
 Properties/C01.vio: Properties/C01.v Graph.vio Sched.vio SchedInv.vio Dataflow.vio DataflowFacts.vio
 Properties/C01.vos Properties/C01.vok Properties/C01.required_vos: Properties/C01.v Graph.vos Sched.vos SchedInv.vos Dataflow.vos DataflowFacts.vos
@@ -142,9 +151,9 @@ Properties/C13.vos Properties/C13.vok Properties/C13.required_vos: Properties/C1
 Properties/C14.vo Properties/C14.glob Properties/C14.v.beautified Properties/C14.required_vo: Properties/C14.v Graph.vo Sched.vo SchedInv.vo SchedGhost.vo
 Properties/C14.vio: Properties/C14.v Graph.vio Sched.vio SchedInv.vio SchedGhost.vio
 Properties/C14.vos Properties/C14.vok Properties/C14.required_vos: Properties/C14.v Graph.vos Sched.vos SchedInv.vos SchedGhost.vos
-Properties/C15.vo Properties/C15.glob Properties/C15.v.beautified Properties/C15.required_vo: Properties/C15.v Graph.vo Sched.vo SchedInv.vo Dataflow.vo DataflowFacts.vo DenPre.vo
-Properties/C15.vio: Properties/C15.v Graph.vio Sched.vio SchedInv.vio Dataflow.vio DataflowFacts.vio DenPre.vio
-Properties/C15.vos Properties/C15.vok Properties/C15.required_vos: Properties/C15.v Graph.vos Sched.vos SchedInv.vos Dataflow.vos DataflowFacts.vos DenPre.vos
+Properties/C15.vo Properties/C15.glob Properties/C15.v.beautified Properties/C15.required_vo: Properties/C15.v Graph.vo Sched.vo SchedInv.vo Dataflow.vo DataflowFacts.vo DenPre.vo Args.vo ArgsFacts.vo
+Properties/C15.vio: Properties/C15.v Graph.vio Sched.vio SchedInv.vio Dataflow.vio DataflowFacts.vio DenPre.vio Args.vio ArgsFacts.vio
+Properties/C15.vos Properties/C15.vok Properties/C15.required_vos: Properties/C15.v Graph.vos Sched.vos SchedInv.vos Dataflow.vos DataflowFacts.vos DenPre.vos Args.vos ArgsFacts.vos
 Properties/C16.vo Properties/C16.glob Properties/C16.v.beautified Properties/C16.required_vo: Properties/C16.v Threads.vo ThreadsFacts.vo
 Properties/C16.vio: Properties/C16.v Threads.vio ThreadsFacts.vio
 Properties/C16.vos Properties/C16.vok Properties/C16.required_vos: Properties/C16.v Threads.vos ThreadsFacts.vos
@@ -157,6 +166,6 @@ Properties/C18.vos Properties/C18.vok Properties/C18.required_vos: Properties/C1
 Properties/C19.vo Properties/C19.glob Properties/C19.v.beautified Properties/C19.required_vo: Properties/C19.v Graph.vo Closure.vo Sched.vo SchedInv.vo Dataflow.vo DataflowFacts.vo Terms.vo Iso.vo IsoFacts.vo IsoCheck.vo IsoCheckFacts.vo Compose.vo ComposeFacts.vo
 Properties/C19.vio: Properties/C19.v Graph.vio Closure.vio Sched.vio SchedInv.vio Dataflow.vio DataflowFacts.vio Terms.vio Iso.vio IsoFacts.vio IsoCheck.vio IsoCheckFacts.vio Compose.vio ComposeFacts.vio
 Properties/C19.vos Properties/C19.vok Properties/C19.required_vos: Properties/C19.v Graph.vos Closure.vos Sched.vos SchedInv.vos Dataflow.vos DataflowFacts.vos Terms.vos Iso.vos IsoFacts.vos IsoCheck.vos IsoCheckFacts.vos Compose.vos ComposeFacts.vos
-Properties/C20.vo Properties/C20.glob Properties/C20.v.beautified Properties/C20.required_vo: Properties/C20.v Graph.vo Sched.vo SchedInv.vo Dataflow.vo DataflowFacts.vo Terms.vo Iso.vo IsoFacts.vo IsoCheck.vo IsoCheckFacts.vo
-Properties/C20.vio: Properties/C20.v Graph.vio Sched.vio SchedInv.vio Dataflow.vio DataflowFacts.vio Terms.vio Iso.vio IsoFacts.vio IsoCheck.vio IsoCheckFacts.vio
-Properties/C20.vos Properties/C20.vok Properties/C20.required_vos: Properties/C20.v Graph.vos Sched.vos SchedInv.vos Dataflow.vos DataflowFacts.vos Terms.vos Iso.vos IsoFacts.vos IsoCheck.vos IsoCheckFacts.vos
+Properties/C20.vo Properties/C20.glob Properties/C20.v.beautified Properties/C20.required_vo: Properties/C20.v Args.vo ArgsFacts.vo Graph.vo Sched.vo SchedInv.vo Dataflow.vo DataflowFacts.vo Terms.vo Iso.vo IsoFacts.vo IsoCheck.vo IsoCheckFacts.vo
+Properties/C20.vio: Properties/C20.v Args.vio ArgsFacts.vio Graph.vio Sched.vio SchedInv.vio Dataflow.vio DataflowFacts.vio Terms.vio Iso.vio IsoFacts.vio IsoCheck.vio IsoCheckFacts.vio
+Properties/C20.vos Properties/C20.vok Properties/C20.required_vos: Properties/C20.v Args.vos ArgsFacts.vos Graph.vos Sched.vos SchedInv.vos Dataflow.vos DataflowFacts.vos Terms.vos Iso.vos IsoFacts.vos IsoCheck.vos IsoCheckFacts.vos
